@@ -331,6 +331,20 @@ def has_skip(it):
     return False
 
 
+def has_marker(it, name):
+    k = it['kind']
+    def names(attrs):
+        out = []
+        for a in attrs:
+            if a[0] == 'Dw' and a[1][0] == 'List':
+                out += [m[1][1][0] for m in a[1][1] if m[0] in ('P', 'L') and len(m[1][1]) == 1]
+        return out
+    if name in names(it['attrs']):
+        return True
+    vs = k[1] if k[0] == 'Enum' else []
+    return any(name in names(v['attrs']) for v in vs)
+
+
 def item_module(idx, cid, it, vals, zeroize, hostile=False):
     """Rust source of one module running all observations of one item"""
     pit = it
@@ -379,21 +393,37 @@ def item_module(idx, cid, it, vals, zeroize, hostile=False):
         L.append('{ let d = <%s as Default>::default(); println!("I-default {}", show(&d)); std::mem::forget(d); }' % ty)
     if 'Debug' in ts:
         L.append('for a in &vals { println!("I-debug {}", esc(format!("{:?}", a))); println!("I-debugp {}", esc(format!("{:#?}", a))); }')
-        if not hostile and not has_skip(it):
-            # nothing is skipped: the standard derive on a mirror type (same names, in a sub-module) must print the same text
-            mit = copy.deepcopy(it)
-            mit['attrs'] = [a for a in mit['attrs'] if a[0] == 'Repr']
-            mit['vis'] = ['pub']
-            kk = mit['kind']
-            for v in (kk[1] if kk[0] == 'Enum' else [dict(attrs=[], fields=kk[2])]):
-                v['attrs'] = []
-                for f in v['fields']:
-                    f['attrs'] = []
-                    if kk[0] != 'Enum':
-                        f['vis'] = ['pub']
-            L.append('pub mod mirror { use super::super::*; #[derive(Debug)] %s }' % item_txt(mit))
-            L.append('let mkm: Vec<fn() -> mirror::%s> = vec![%s];' % (ty, ', '.join('|| mirror::' + ctor_expr(it, vi, fv, pt) for vi, fv in vals)))
-            L.append('for f in &mkm { let a = f(); println!("I-stddebug {}", esc(format!("{:?}", a))); println!("I-stddebugp {}", esc(format!("{:#?}", a))); }')
+        pass
+    std = [t for t in ('Debug', 'PartialEq', 'Eq', 'PartialOrd', 'Ord', 'Hash') if t in ts]
+    if std and not hostile and not zeroize and not has_skip(it) and not has_marker(it, 'incomparable'):
+        # nothing is skipped or incomparable: the STANDARD derives on a mirror type (same names, in a sub-module) must give the same answers
+        mit = copy.deepcopy(it)
+        mit['attrs'] = [a for a in mit['attrs'] if a[0] == 'Repr']
+        mit['vis'] = ['pub']
+        kk = mit['kind']
+        for v in (kk[1] if kk[0] == 'Enum' else [dict(attrs=[], fields=kk[2])]):
+            v['attrs'] = []
+            for f in v['fields']:
+                f['attrs'] = []
+                if kk[0] != 'Enum':
+                    f['vis'] = ['pub']
+        sup = {'Eq': ['PartialEq'], 'PartialOrd': ['PartialEq'], 'Ord': ['PartialEq', 'Eq', 'PartialOrd']}
+        ders = list(std)
+        for t in std:
+            ders += [x for x in sup.get(t, []) if x not in ders]
+        L.append('pub mod mirror { use super::super::*; #[derive(%s)] %s }' % (', '.join(ders), item_txt(mit)))
+        L.append('let mkm: Vec<fn() -> mirror::%s> = vec![%s];' % (ty, ', '.join('|| mirror::' + ctor_expr(it, vi, fv, pt) for vi, fv in vals)))
+        L.append('let mvals: Vec<mirror::%s> = mkm.iter().map(|f| f()).collect();' % ty)
+        if 'Debug' in std:
+            L.append('for a in &mvals { println!("I-stddebug {}", esc(format!("{:?}", a))); println!("I-stddebugp {}", esc(format!("{:#?}", a))); }')
+        if 'PartialEq' in std:
+            L.append('for a in &mvals { let mut s = String::new(); for b in &mvals { s.push(if a == b {\'1\'} else {\'0\'}); } println!("I-stdeq {}", s); }')
+        if 'Ord' in std:
+            L.append('for a in &mvals { let mut s = String::new(); for b in &mvals { s.push(ch(Some(Ord::cmp(a, b)))); } println!("I-stdcmp {}", s); }')
+        if 'PartialOrd' in std:
+            L.append('for a in &mvals { let mut s = String::new(); for b in &mvals { s.push(ch(a.partial_cmp(b))); } println!("I-stdpcmp {}", s); }')
+        if 'Hash' in std:
+            L.append('for a in &mvals { let mut r = Rec::default(); a.hash(&mut r); println!("I-stdhash {}", r.0.iter().map(|x| format!("{};", x)).collect::<String>()); }')
     if 'Zeroize' in ts:
         L.append('for f in &mk { let mut a = f(); log_take(); zeroize::Zeroize::zeroize(&mut a); let l = log_take(); println!("I-zeroize {}|{}", show(&a), l.iter().map(|x| format!("{},", x)).collect::<String>()); std::mem::forget(a); }')
     if 'ZeroizeOnDrop' in ts:
